@@ -10,6 +10,10 @@ COMMON_NOTE = ("Trusted: Lean 4.33 kernel (axioms per theorem are measured on ev
                "execution of model vs. real code; bounded by its generators). ")
 
 CLAIMS = {
+    "C04": dict(
+        text="16 Lean theorems over an executable Xfer model (sender chunker + running hash + ack check; receiver byte accounting into dest+'.tmp', rename only after xfersize bytes; zip mode) for every content, size incl. 0, chunk size and interleaving: receiver_success_exact, both_success_exact, cut_no_success_no_final, sender_success_needs_matching_ack (iff), honest_run_succeeds; call skeletons of _parse_offer/_transfer_data/_write_file/_send_file are decide obligations; tied to the REAL Sender._send_file / Receiver._parse_offer.._close_transit over two real transit.Connection objects in a sandbox.",
+        note="Channel hypothesis = C06 (receiver gets a prefix of the records, then possibly a drop). Trusted: SHA-256 injectivity, zip round trip, json codec, twisted FileSender loop (compared), POSIX rename. Text mode escaping only by oracle (Python repr not modelled). No localhost smoke pair (sockets are excluded).",
+        tech="Lean 4 proof (invariant over transfer events) + skeleton agreement + differential correspondence"),
     "C05": dict(
         text="18 Lean theorems (all names/filesystems/args, by induction on the path algebra) over an executable model of posixpath + Receiver._decide_destname/_remove_existing/_handle_file/_extract_file, with generated call skeletons as a proof obligation; model tied to the real Receiver methods by differential runs in a sandbox; oracle = filesystem snapshot of the sandbox and its parent.",
         note="Modelled not verified: CPython posixpath and zipfile member sanitisation (compared differentially), no symlinks/races. One recorded known finding (staging file foo.tmp clobbered).",
